@@ -27,5 +27,6 @@ CONSTANTS
   BugBoundKeepsFirst = FALSE
   BugAsyncGenWrapped = FALSE
   FixedDeclaredReturn = FALSE
+  FixedAsyncGenInferred = TRUE
 INVARIANT ShapeViewsAgreeStrict
 CHECK_DEADLOCK FALSE
